@@ -1,6 +1,7 @@
 import AmaranthVerif.Proofs.MemoryCtor
 import AmaranthVerif.Proofs.MemoryRename
 import AmaranthVerif.Proofs.MemQueue
+import AmaranthVerif.Proofs.MemQueueComm
 
 /-!
 # C11 — memories behave as arrays of rows under any port configuration
@@ -634,6 +635,20 @@ theorem writes_to_distinct_rows_commute (sh : Shape) (rows : List Int) (q : Queu
     (hab : a ≠ b) (hq : q.length = rows.length) :
     qwrite sh rows (qwrite sh rows q a v1 m1) b v2 m2 = qwrite sh rows (qwrite sh rows q b v2 m2) a v1 m1 :=
   qwrite_comm_rows sh rows q a b v1 m1 v2 m2 hab hq
+
+/-- Two writes to *one* row in one delta whose masks share no bit commute as well (whatever the row shape: the sign
+fix-up of signed rows included): with the previous theorem, the rows committed at the end of a delta do not depend on
+the order in which processes with bit-disjoint writes ran — the hypothesis C08's order-independence theorems take for
+user processes sharing a memory. -/
+theorem writes_to_one_row_commute (sh : Shape) (rows : List Int) (q : Queue) (a : Nat) (v1 m1 v2 m2 : Int)
+    (hd : pyAnd m1 m2 = 0) (hq : q.length = rows.length) :
+    qwrite sh rows (qwrite sh rows q a v1 m1) a v2 m2 = qwrite sh rows (qwrite sh rows q a v2 m2) a v1 m1 :=
+  qwrite_comm_same_row sh rows q a v1 m1 v2 m2 hd hq
+
+/-- the hypothesis is needed: overlapping masks, different data — the last writer wins -/
+example : qwrite ⟨4, false⟩ [0] (qwrite ⟨4, false⟩ [0] [none] 0 1 3) 0 2 3 ≠
+    qwrite ⟨4, false⟩ [0] (qwrite ⟨4, false⟩ [0] [none] 0 2 3) 0 1 3 := by decide
+example : pyAnd 0x0f 0xf0 = 0 := by decide
 
 /-- `commit()` returns `True` (and so wakes the processes waiting on the memory) exactly when some row changed —
 not only when the row queued last did. -/
